@@ -243,6 +243,26 @@ bool Instance::setup_environment(unsigned int flags) {
     env->execdata = execdata;
     env->tce = tce;
 
+    // a pay-to-script-hash spend runs a third script, the one the sig script pushes last: like the other two it must be decodable to its end,
+    // or the listing cannot show what will be executed (the bytes after the last decodable operation would be missing from it)
+    if (tx && sigver == SigVersion::BASE && (flags & SCRIPT_VERIFY_P2SH) && successor_script.IsPayToScriptHash()) {
+        opcodetype opcode;
+        valtype pushval, redeem;
+        CScript::const_iterator it = script.begin();
+        while (it < script.end() && script.GetOp(it, opcode, pushval)) {
+            redeem = (pushval.empty() && (opcode == OP_1NEGATE || (opcode >= OP_1 && opcode <= OP_16))) ? valtype(1, opcode == OP_1NEGATE ? 0x81 : (unsigned char)(opcode - OP_1 + 1)) : pushval;
+        }
+        CScript redeem_script(redeem.begin(), redeem.end());
+        it = redeem_script.begin();
+        while (it < redeem_script.end()) {
+            if (!redeem_script.GetOp(it, opcode, pushval)) {
+                fprintf(stderr, "invalid script (P2SH redeem script cannot be decoded: a push runs past its end): %s\n", HexStr(redeem_script).c_str());
+                error = SCRIPT_ERR_BAD_OPCODE;
+                return false;
+            }
+        }
+    }
+
     // SIGPUSHONLY: the scriptSig of the debugged input may only push
     if ((flags & SCRIPT_VERIFY_SIGPUSHONLY) && tx && txin && txin_index >= 0 && (size_t)txin_index < tx->vin.size() && !tx->vin[txin_index].scriptSig.IsPushOnly()) {
         error = SCRIPT_ERR_SIG_PUSHONLY;
